@@ -181,29 +181,10 @@ def rule_r3(rep, repo, classes):
             rep.ok("R3.trim-honoured-by-transform", f"{k}.transform", tr.loc(),
                    f"every return passes through _convert_inf when self.{flag}")
     rep.floor("classes with trim_inf", n, 5)
-    # _convert_inf two-sided, scalar and array
-    src = [norm(x) for x in ast.walk(conv.node) if isinstance(x, (ast.Compare, ast.Call))]
-    param = conv.params[1]
-    has_scalar_branch = any(isinstance(x, ast.Call) and norm(x.func) == "isinstance" and norm(x.args[0]) == param
-                            for x in ast.walk(conv.node))
-    scalar_two_sided = any("np.sign(" in norm(x) for x in ast.walk(conv.node) if isinstance(x, (ast.IfExp, ast.BinOp))) \
-        and any("np.isinf(" in s for s in src)
-    pos = any(s.endswith("== np.inf") or "np.isposinf" in s or ("posinf=" in s) for s in src)
-    neg = any(s.endswith("== -np.inf") or "np.isneginf" in s or ("neginf=" in s) for s in src)
-    neg_store = any(isinstance(x, ast.Assign) and isinstance(x.targets[0], ast.Subscript)
-                    and "-np.inf" in norm(x.targets[0]) and norm(x.value).startswith("-")
-                    for x in ast.walk(conv.node)) or any("neginf=" in s for s in src)
-    pos_store = any(isinstance(x, ast.Assign) and isinstance(x.targets[0], ast.Subscript)
-                    and norm(x.targets[0]).endswith("== np.inf]") and not norm(x.value).startswith("-")
-                    for x in ast.walk(conv.node)) or any("posinf=" in s for s in src)
-    for role, okk, what in (("scalar", has_scalar_branch and scalar_two_sided, "scalar input (sign-preserving replacement of +-inf)"),
-                            ("array+inf", pos and pos_store, "array input, +inf replaced by +large"),
-                            ("array-inf", neg and neg_store, "array input, -inf replaced by -large")):
-        if okk:
-            rep.ok("R3.convert-inf-two-sided", f"BaseTransform._convert_inf[{role}]", conv.loc(), what)
-        else:
-            rep.violation("R3.convert-inf-two-sided", "rtransform.BaseTransform._convert_inf", role,
-                          f"_convert_inf does not handle: {what}", conv.loc())
+    # _convert_inf two-sided, scalar and array: decided by evaluation (E10); the earlier textual version (look for
+    # `== np.inf` / `== -np.inf` stores and np.sign) false-alarmed on a loop over (infinity, replacement) pairs
+    from gridlint import trim_inf
+    trim_inf.rule_convert_inf(rep, repo)
     # the array branch must work on a copy (shared with C20, informational here)
 
 
